@@ -1,0 +1,40 @@
+//go:build verif
+
+package maurer09
+
+// Contracts for the deductive checker in /verif (comment-only; compiled only under the verif tag).
+//
+// Generic Maurer protocol over a homomorphism phi: P -> I (both abstract abelian groups, "group").
+// The function-valued fields (oneWayHomomorphism, imageScalarMul, preImageScalarMul) are modelled as
+// deterministic functions of their arguments.
+
+// Verification accepts exactly when phi(z) == a + [e]x (written additively) and all parts are present.
+//@ func (*Protocol).Verify
+//@   property C08
+//@   bind I group, P group
+//@   purefn
+//@   let cx = p.imageScalarMul(statement.X, challengeBytes)
+//@   let phiZ = p.oneWayHomomorphism(response.Z)
+//@   ensures (err == nil) == (statement != nil && commitment != nil && challengeBytes != nil && response != nil && res(cx, 1) == nil && res(phiZ, 1) == nil && res(phiZ, 0) == gadd(commitment.A, res(cx, 0)))
+
+// The prover's response is z = s + [e]w.
+//@ func (*Protocol).ComputeProverResponse
+//@   property C08
+//@   bind I group, P group
+//@   let cw = p.preImageScalarMul(witness.W, challengeBytes)
+//@   ensures (witness == nil || state == nil) ==> err != nil
+//@   ensures err == nil ==> res(cw, 1) == nil && result != nil && result.Z == gadd(state.S, res(cw, 0))
+
+// The simulator outputs a = phi(z) + [e](-x) for the z it sampled, which is what Verify checks when
+// [e](-x) is the inverse of [e]x.
+//@ func (*Protocol).RunSimulator
+//@   property C08
+//@   bind I group, P group
+//@   ensures err == nil ==> result != nil && result1 != nil && res(p.oneWayHomomorphism(result1.Z), 1) == nil && res(p.imageScalarMul(gneg(statement.X), challengeBytes), 1) == nil
+//@   ensures err == nil ==> result.A == gadd(res(p.oneWayHomomorphism(result1.Z), 0), res(p.imageScalarMul(gneg(statement.X), challengeBytes), 0))
+
+// The extractor only proceeds on two accepting transcripts and coprime exponents.
+//@ func (*Protocol).Extract
+//@   property C08
+//@   bind I group, P group, Int bigint
+//@   ensures err == nil ==> len(ei) == 2 && len(zi) == 2 && p.Verify(x, a, ei[0], zi[0]) == nil && p.Verify(x, a, ei[1], zi[1]) == nil
